@@ -69,6 +69,14 @@ CHECKS["C08"] = (True, TV, "translation validation per program: reference interp
     "with the prescribed tree (groupings no values can distinguish) and the IR listing across whitespace layouts.",
     "Trusts z3, the proxy model (floats as reals), the reference interpreter O1. Operands in [-1000,1000]; float % and literal-after-operator spellings outside.", "DESIGN.md 5 (C08)")
 
+CHECKS["C01"] = (True, TV, "translation validation per program: reference interpreter O1 vs the real front end, lowering and VM on symbolic arguments and globals (symx + z3)",
+    "Every member of family F1 (a fixed core set of ~400 systematic programs over all operators, compound assignments, ++/--, every loop form with break/continue "
+    "and nesting, arrays, structs, globals, re-initialised locals; plus VERIF_SEED-generated random scalar programs) is compiled by the real lexer, parser, passes and lowering, "
+    "linked and run on the real VM with symbolic arguments and symbolic initial globals; the reference interpreter runs first on the same symbols and contributes the domain "
+    "assumptions. z3 decides per joint path that no input makes the return value or any global differ; a VM exception or non-termination on a feasible path is a violation.",
+    "Trusts z3, the proxy model (Python int = Int, float = Real: rounding abstracted), the reference interpreter (validated against the 51 programs of tests/test_vm.py on every run). "
+    "Loop trip counts <= 3 (quick) / 4 (thorough); programs outside the family are outside the claim.", "DESIGN.md 5 (C01)")
+
 NOT_YET = "check not built yet in this round (see DESIGN.md status); nothing is claimed"
 NA = {
     "C18": "quantifies over hash seeds, processes and compilation histories: none of these is a value flowing through the code, so there is no assertion over symbolic variables for a solver to decide (DESIGN.md section 6)",
